@@ -498,3 +498,8 @@ func Settle() {
 	}
 	time.Sleep(3 * time.Millisecond)
 }
+
+// Took reports whether a virtual duration is more than the nanosecond steps the harness itself inserts to wait
+// for quiescence (Settle, scheduler steps). Every timer in the system under test is at least a millisecond, so a
+// spurious jump of the virtual clock is always far above this threshold.
+func Took(d time.Duration) bool { return d >= time.Microsecond }
